@@ -78,6 +78,7 @@ type Sched struct {
 	running  *Thread
 	back     gate // thread -> explorer
 	aborting bool
+	external bool
 	Steps    int
 
 	base    time.Time
@@ -235,10 +236,20 @@ func (s *Sched) Me() *Thread { return s.running }
 //go:norace
 func Active() *Sched {
 	s := cur
-	if s == nil || s.running == nil || s.aborting {
+	if s == nil || s.running == nil || s.aborting || s.external {
 		return nil
 	}
 	return s
+}
+
+// External runs f on the explorer goroutine with the shims in pass-through mode (all managed
+// threads are parked; the real primitives are uncontended unless a parked thread holds one).
+//
+//go:norace
+func (s *Sched) External(f func()) {
+	s.external = true
+	defer func() { s.external = false }()
+	f()
 }
 
 // Aborting reports whether the active execution is being torn down (shim calls are no-ops then)
